@@ -36,12 +36,12 @@ CLAIMS = {
  "C05": dict(cat="proof", tech="machine-checked proof in Coq (value lane = point evaluation for every tape; derivative lemmas over R in progress) + bit-exact correspondence of the gradient model + local chain-rule oracle in f64",
    text="Kernel-checked for every float structure and every tape: the value lane of the gradient evaluator is the point evaluation (composition through Related.tape_related). types/grad.rs and the grad-slice loop are modelled once over the abstract float structure; the f32 instance equals the interpreter bit-for-bit with every node exported and arbitrary seeds. The oracle checks the chain rule per node in f64 from the evaluator's own operand duals (interpreter and JIT) and the symbolic derivative against forward mode.",
    ref="DESIGN.md §5 C05", note="Partial: the is_derive theorems (GradSound over R) are being proved; f32 rounding is covered by the tolerance oracle only."),
- "C12": dict(cat="proof", tech="machine-checked proof in Coq (f32 facts behind every rewrite, via Flocq; constructor-level theorems in progress) + node-for-node correspondence of the Context model + independent evaluation oracle",
-   text="Kernel-checked on Flocq binary32: operand reordering of add/mul/min/max is bit-exact, a+a = 2a for every value, and each identity-elimination rewrite is exact or exact up to the sign of zero under stated (and shown necessary) finiteness conditions. The Context (dedup arena, every constructor with its rewrites, import) is modelled in Gallina and equals the implementation node-for-node on random constructor sequences and imported trees; meaning, dedup, import/export, Eq/Hash and 10^6-deep trees are checked by the oracle.",
+ "C12": dict(cat="proof", tech="machine-checked proof in Coq (f32 facts behind every rewrite via Flocq; invariant / dedup / meaning / import-of-export theorems for every constructor of the Context model) + node-for-node correspondence of the Context model + independent evaluation oracle",
+   text="Kernel-checked on Flocq binary32: operand reordering of add/mul/min/max is bit-exact, a+a = 2a for every value, and each identity-elimination rewrite is exact or exact up to the sign of zero under stated (and shown necessary) finiteness conditions. The Context (dedup arena, every constructor with its rewrites, import) is modelled in Gallina; kernel-checked over that model: every public call keeps the arena well-formed, deduplicated and canonical and only appends (P1), repeating a call returns the same node (P2), the node built denotes the IEEE operation of its operands up to the sign of zero under necessary side conditions and exactly when no operand is a constant (P3), import(export(c)) is the identity (P5). The model equals the implementation node-for-node on random constructor sequences and imported trees; meaning, dedup, import/export, Eq/Hash and 10^6-deep trees are checked by the oracle.",
    ref="DESIGN.md §5 C12", note="Known finding: rewrites change the sign of zero, observable through atan2/rand/mix (KNOWN_FINDINGS.txt)."),
- "C13": dict(cat="proof", tech="machine-checked proof in Coq (affine composition) + node-for-node correspondence of the import model (frames, affine rows) + substitution-semantics oracle",
-   text="Kernel-checked over the reals: the flattened matrix of consecutive affine remaps acts as the factors applied in order (later remap first on the coordinates). Context::import with RemapAxes / RemapAffine is modelled as a recursive substitution (Ctx.import_rec) and equals the implementation node-for-node on random nested remaps; values are compared with the substitution semantics evaluated directly on the tree.",
-   ref="DESIGN.md §5 C13", note="The import-as-substitution theorem over the Context model is being proved (CtxProof)."),
+ "C13": dict(cat="proof", tech="machine-checked proof in Coq (import-as-substitution over the Context model; affine composition over the reals) + node-for-node correspondence of the import model (frames, affine rows) + substitution-semantics oracle",
+   text="Kernel-checked over the reals: the flattened matrix of consecutive affine remaps acts as the factors applied in order (later remap first on the coordinates). Context::import with RemapAxes / RemapAffine is modelled as a recursive substitution (Ctx.import_rec); kernel-checked: the imported node evaluates to the tree's substitution denotation (exactly when no intermediate is a zero, up to the sign of zero otherwise), for every tree table, frame nesting and matrix. The model equals the implementation node-for-node on random nested remaps; values are compared with the substitution semantics evaluated directly on the tree.",
+   ref="DESIGN.md §5 C13", note="Exact equality holds where no intermediate value is a zero; up to the sign of zero otherwise (import_sound_z), with the observable sign change a recorded finding of C12."),
  "C16": dict(cat="proof", tech="machine-checked proof in Coq (named planes / revolve axis from regenerated tables; 35 geometry theorems over the reals for every builder) + node-for-node correspondence of every shape builder + closed-form geometry oracle",
    text="Every From<_> for Tree body of fidget-shapes is a Gallina tree builder generic in the scalar type; the f32 instance imported into the Context model equals Tree::from(shape) imported into a Context node-for-node for all 26 shapes and named planes on random parameters (including nalgebra's f32 affine products). Named-plane axes and RevolveY's radius plane are regenerated from the source and proved to be the documented ones. Kernel-checked over the reals (ShapesSound): inside <-> negative for circle/sphere/rectangle/box/plane, set algebra for union/intersection/inverse/difference, blend contains the union and equals it at radius 0, den(T(s))(p) = den(s)(T^-1 p) for move/scale/rotate (Rodrigues)/reflect*/revolve/extrude/loft/repeat. The oracle compares every shape with closed-form f64 geometry at 24 points per case.",
    ref="DESIGN.md §5 C16", note="The real-number theorems are about the same generic builders whose f32 instance is compared with the implementation."),
